@@ -14,7 +14,7 @@ HUGE = 1 << 24  # beyond this float32 cannot represent every integer
 
 def gen_instance(rng, *, max_jobs=4, max_machines=4, max_ops=4, flexible=None,
                  zero=None, regular=None, recirc=None, positive=None,
-                 classic=None, degenerate=True, min_jobs=1, max_dur=9, huge=0.0, sparse_ids=0.0, large=0.0):
+                 classic=None, degenerate=True, min_jobs=1, max_dur=9, huge=0.0, sparse_ids=0.0, large=0.0, recycled=0.02):
     """Draws an instance spec.  Every ``None`` switch is drawn per call.
     `large`: probability of a 6-10 jobs x up to 8 machines x up to 10 operations instance (scale effects).
     `sparse_ids`: probability of machine ids with gaps (unused machines, large maximum id).
@@ -25,6 +25,9 @@ def gen_instance(rng, *, max_jobs=4, max_machines=4, max_ops=4, flexible=None,
     spec = _gen_instance(rng, max_jobs=max_jobs, max_machines=max_machines, max_ops=max_ops, flexible=flexible, zero=zero,
                          regular=regular, recirc=recirc, positive=positive, classic=classic, degenerate=degenerate,
                          min_jobs=min_jobs, max_dur=max_dur)
+    if rng.random() < recycled:
+        # the instance will be assembled from copies of operations that already belonged to another instance
+        spec["recycled"] = True
     if sparse_ids and rng.random() < sparse_ids:
         # machine ids with gaps and a large maximum: many machines that no operation uses
         stride, off = rng.randint(2, 4), rng.randint(0, 3)
@@ -154,6 +157,13 @@ def build(spec, name=None, **metadata):
             # real use; keep it deterministic: int iff exactly one machine
             row.append(Operation(ms[0] if len(ms) == 1 else list(ms), d))
         jobs.append(row)
+    if spec.get("recycled"):
+        # the operations first belong to a donor instance with another layout (an extra job in front, jobs in
+        # reverse order); the instance under test is built from deep copies of them in the layout of the spec
+        import copy
+
+        donor = JobShopInstance([[Operation(0, 1), Operation(0, 2)]] + jobs[::-1], name="donor")
+        jobs = [[copy.deepcopy(op) for op in job] for job in donor.jobs[1:][::-1]]
     return JobShopInstance(jobs, name=name or spec.get("name", "sim"), **metadata)
 
 
@@ -164,6 +174,8 @@ def as_tuple(spec):
 def shrink_candidates(spec):
     """Yields simpler instance specs (each strictly smaller by some measure)."""
     jobs = spec["jobs"]
+    if spec.get("recycled"):
+        yield {k: v for k, v in spec.items() if k != "recycled"}
     base = {k: v for k, v in spec.items() if k != "jobs"}
     # drop a job
     if len(jobs) > 1:
